@@ -15,7 +15,7 @@ use codec::{Decoded, Encoded};
 use disk::{DiskReader, ReadFault, SimDisk, WriteFault};
 use serde_json::{json, Value};
 use simcore::civil::*;
-use simcore::pool::{self, Cutoff, Merge};
+use simcore::pool::{self, Merge};
 use simcore::rng::{tag, Rng};
 use simcore::{Fnv, EXIT_HARNESS, EXIT_OK, EXIT_VIOLATION};
 use std::collections::{BTreeMap, BTreeSet};
@@ -28,6 +28,11 @@ enum Op {
     Write { ty: Ty, raw: i64, codec: Codec, fault: WriteFault },
     ForeignBin { ty: Ty, raw: i64 },
     ForeignText { ty: Ty, text: String },
+    /// a raw JSON fragment that need not be a string (number, null, array, ...)
+    ForeignJson { ty: Ty, json: String },
+    /// one primitive handed to the visitor by a self-describing format other than
+    /// serde_json text / bincode (see codec::SimDe)
+    ForeignValue { ty: Ty, kind: String, raw: i64, text: String, human: bool },
     Sync,
     CrashLose,
     CrashTorn { keep: usize, fill: u8 },
@@ -69,9 +74,9 @@ struct Violation {
     detail: String,
 }
 
-const FAULTS: [&str; 12] = [
+const FAULTS: [&str; 14] = [
     "short_write", "eintr_write", "eio", "enospc", "crash_lost", "crash_torn", "bit_flip", "zeroed", "dup_sector",
-    "truncate", "short_read_or_eintr_read", "early_eof",
+    "truncate", "short_read_or_eintr_read", "early_eof", "digit_substitution", "numeric_field_substitution",
 ];
 
 #[derive(Default, Clone)]
@@ -81,8 +86,8 @@ struct Stats {
     decodes: u64,
     encodes: u64,
     enumerated_decodes: u64,
-    fault_configured: [u64; 12],
-    fault_fired: [u64; 12],
+    fault_configured: [u64; 14],
+    fault_fired: [u64; 14],
     outcomes: BTreeMap<(Ty, Codec, &'static str), u64>,
     probes: BTreeMap<&'static str, u64>,
     max_text_len: usize,
@@ -99,7 +104,7 @@ impl Merge for Stats {
         self.decodes += o.decodes;
         self.encodes += o.encodes;
         self.enumerated_decodes += o.enumerated_decodes;
-        for i in 0..12 {
+        for i in 0..14 {
             self.fault_configured[i] += o.fault_configured[i];
             self.fault_fired[i] += o.fault_fired[i];
         }
@@ -121,7 +126,93 @@ impl Merge for Stats {
     }
 }
 
+fn static_str(pool: &[&'static str], s: &str) -> Option<&'static str> {
+    pool.iter().copied().find(|p| *p == s)
+}
+
+const CLASSES: [&str; 5] = ["panic", "out_of_range", "roundtrip", "serialize_failed", "other"];
+const OUTCOME_NAMES: [&str; 6] = ["panic", "ok_out_of_range", "ok_other_in_range", "ok_same", "ok_in_range_damaged_or_foreign", "err"];
+const PROBE_NAMES: [&str; 9] = [
+    "decoded_exactly_min", "decoded_exactly_max", "raw_payload_one_past_a_limit", "raw_payload_integer_extreme",
+    "oracle_payload_with_subsecond_part", "malformed_or_out_of_range_text_payload", "json_payload_that_is_not_a_string",
+    "value_handed_over_by_another_format", "other",
+];
+
 impl Stats {
+    fn to_json(&self) -> Value {
+        json!({
+            "runs": self.runs, "records": self.records, "decodes": self.decodes, "encodes": self.encodes,
+            "enumerated_decodes": self.enumerated_decodes,
+            "fault_configured": self.fault_configured.to_vec(), "fault_fired": self.fault_fired.to_vec(),
+            "outcomes": self.outcomes.iter().map(|((t, c, w), n)| json!([t.name(), c.name(), w, n])).collect::<Vec<_>>(),
+            "probes": self.probes,
+            "max_text_len": self.max_text_len,
+            "distinct": self.distinct.iter().collect::<Vec<_>>(),
+            "batch_hash": format!("{:016x}", self.batch_hash),
+            "samples": self.samples,
+            "violations": self.violations.iter().map(|(i, sc, v)| json!({"index": i, "script": script_to_json(sc), "class": v.class, "sig": v.sig, "detail": v.detail})).collect::<Vec<_>>(),
+        })
+    }
+
+    fn from_json(v: &Value) -> Stats {
+        let u = |k: &str| v[k].as_u64().unwrap_or(0);
+        let mut s = Stats {
+            runs: u("runs"),
+            records: u("records"),
+            decodes: u("decodes"),
+            encodes: u("encodes"),
+            enumerated_decodes: u("enumerated_decodes"),
+            max_text_len: u("max_text_len") as usize,
+            batch_hash: v["batch_hash"].as_str().and_then(|h| u64::from_str_radix(h, 16).ok()).unwrap_or(0),
+            ..Stats::default()
+        };
+        for (k, out) in [("fault_configured", &mut s.fault_configured), ("fault_fired", &mut s.fault_fired)] {
+            if let Some(a) = v[k].as_array() {
+                for (i, x) in a.iter().enumerate().take(14) {
+                    out[i] = x.as_u64().unwrap_or(0);
+                }
+            }
+        }
+        if let Some(a) = v["outcomes"].as_array() {
+            for x in a {
+                let ty = Ty::from_name(x[0].as_str().unwrap_or(""));
+                let codec = Codec::from_name(x[1].as_str().unwrap_or(""));
+                let what = static_str(&OUTCOME_NAMES, x[2].as_str().unwrap_or(""));
+                if let (Some(t), Some(c), Some(w)) = (ty, codec, what) {
+                    *s.outcomes.entry((t, c, w)).or_default() += x[3].as_u64().unwrap_or(0);
+                }
+            }
+        }
+        if let Some(m) = v["probes"].as_object() {
+            for (k, n) in m {
+                let name = static_str(&PROBE_NAMES, k).unwrap_or("other");
+                *s.probes.entry(name).or_default() += n.as_u64().unwrap_or(0);
+            }
+        }
+        if let Some(a) = v["distinct"].as_array() {
+            s.distinct.extend(a.iter().filter_map(|x| x.as_u64()));
+        }
+        if let Some(a) = v["samples"].as_array() {
+            s.samples = a.clone();
+        }
+        if let Some(a) = v["violations"].as_array() {
+            for x in a {
+                if let Ok(sc) = script_from_json(&x["script"]) {
+                    s.violations.push((
+                        x["index"].as_u64().unwrap_or(0),
+                        sc,
+                        Violation {
+                            class: static_str(&CLASSES, x["class"].as_str().unwrap_or("")).unwrap_or("other"),
+                            sig: x["sig"].as_str().unwrap_or("").to_string(),
+                            detail: x["detail"].as_str().unwrap_or("").to_string(),
+                        },
+                    ));
+                }
+            }
+        }
+        s
+    }
+
     fn probe(&mut self, name: &'static str) {
         *self.probes.entry(name).or_default() += 1;
     }
@@ -259,6 +350,78 @@ fn enumerate_record(ty: Ty, codec: Codec, clean: &[u8], stats: &mut Stats) -> Op
                 return Some(v);
             }
             buf[pos] ^= 1 << bit;
+        }
+    }
+    if codec == Codec::Json {
+        // every single-digit substitution
+        for pos in 0..clean.len() {
+            if !clean[pos].is_ascii_digit() {
+                continue;
+            }
+            for d in b'0'..=b'9' {
+                if d == clean[pos] {
+                    continue;
+                }
+                buf[pos] = d;
+                let got = codec::decode_slice(ty, codec, &buf);
+                stats.decodes += 1;
+                stats.enumerated_decodes += 1;
+                stats.fault_configured[12] += 1;
+                stats.fault_fired[12] += 1;
+                let oc = match &got {
+                    Decoded::Ok(_) => "ok",
+                    Decoded::Err => "err",
+                    Decoded::Panic(_) => "panic",
+                };
+                stats.distinct(ty, codec, "digit_substitution", (pos.min(40) * 10 + (d - b'0') as usize) as u64, oc);
+                let what = format!("{} (digit at byte {} of {} replaced)", show_bytes(&buf), pos, show_bytes(clean));
+                if let Some(v) = judge(ty, codec, "digit_substitution", &got, None, &what, stats) {
+                    return Some(v);
+                }
+            }
+            buf[pos] = clean[pos];
+        }
+        // every numeric field replaced by boundary numbers of the same width, and +/- 1
+        let mut start = 0;
+        while start < clean.len() {
+            if !clean[start].is_ascii_digit() {
+                start += 1;
+                continue;
+            }
+            let mut end = start;
+            while end < clean.len() && clean[end].is_ascii_digit() {
+                end += 1;
+            }
+            let width = end - start;
+            let orig: u64 = std::str::from_utf8(&clean[start..end]).unwrap().parse().unwrap_or(0);
+            let all9 = 10u64.pow(width.min(18) as u32) - 1;
+            let mut cands: Vec<u64> = vec![0, 1, 12, 13, 23, 24, 28, 29, 30, 31, 32, 59, 60, 61, 99, 100, 365, 366, 999, 9999, 10000, all9, orig + 1, orig.wrapping_sub(1)];
+            cands.sort();
+            cands.dedup();
+            for c in cands {
+                if c == orig || c > all9 {
+                    continue;
+                }
+                let rep = format!("{:0width$}", c, width = width);
+                let mut b2 = clean.to_vec();
+                b2[start..end].copy_from_slice(rep.as_bytes());
+                let got = codec::decode_slice(ty, codec, &b2);
+                stats.decodes += 1;
+                stats.enumerated_decodes += 1;
+                stats.fault_configured[13] += 1;
+                stats.fault_fired[13] += 1;
+                let oc = match &got {
+                    Decoded::Ok(_) => "ok",
+                    Decoded::Err => "err",
+                    Decoded::Panic(_) => "panic",
+                };
+                stats.distinct(ty, codec, "numeric_field_substitution", (start.min(40) * 40 + (c % 40) as usize) as u64, oc);
+                let what = format!("{} (numeric field at bytes {}..{} of {} replaced)", show_bytes(&b2), start, end, show_bytes(clean));
+                if let Some(v) = judge(ty, codec, "numeric_field_substitution", &got, None, &what, stats) {
+                    return Some(v);
+                }
+            }
+            start = end;
         }
     }
     for len in 0..clean.len() {
@@ -437,6 +600,45 @@ fn exec_op(op: &Op, w: &mut World, enumerate: bool, stats: &mut Stats, log: &mut
             log.write(b"ft");
             log.write(text.as_bytes());
             None
+        }
+        Op::ForeignJson { ty, json } => {
+            let off = w.disk.data.len();
+            w.disk.data.extend_from_slice(json.as_bytes());
+            w.disk.damaged.resize(w.disk.data.len(), false);
+            w.cat.push(Entry {
+                off,
+                len: json.len(),
+                ty: *ty,
+                codec: Codec::Json,
+                value: None,
+                acked: true,
+                lost: false,
+                payload_kind: "foreign_json",
+            });
+            stats.records += 1;
+            stats.probe("json_payload_that_is_not_a_string");
+            log.write(b"fj");
+            log.write(json.as_bytes());
+            None
+        }
+        Op::ForeignValue { ty, kind, raw, text, human } => {
+            let prim = codec::make_prim(kind, *raw, text);
+            let got = codec::decode_value(*ty, prim, *human);
+            stats.decodes += 1;
+            stats.probe("value_handed_over_by_another_format");
+            let oc = match &got {
+                Decoded::Ok(_) => "ok",
+                Decoded::Err => "err",
+                Decoded::Panic(_) => "panic",
+            };
+            let kind_id = codec::VALUE_KINDS.iter().position(|k| k == kind).unwrap_or(99) as u64;
+            stats.distinct(*ty, if *human { Codec::Json } else { Codec::Bincode }, "foreign_value", kind_id, oc);
+            log.write(b"fv");
+            log.write(kind.as_bytes());
+            log.write_i64(*raw);
+            log.write(text.as_bytes());
+            let what = format!("{} value (raw {} / text {:?}) handed over by a {} format", kind, raw, text, if *human { "human-readable" } else { "binary" });
+            judge(*ty, if *human { Codec::Json } else { Codec::Bincode }, "foreign_value", &got, None, &what, stats)
         }
         Op::NewDisk => {
             w.disk = SimDisk::default();
@@ -645,7 +847,42 @@ fn simulate_run(seed: u64, run: u64, fault_free: bool, stats: &mut Stats) -> (Sc
                 }
             }
             let ty = *rng.pick(&ALL_TYPES);
-            if use_foreign && rng.chance(1, 4) {
+            if use_foreign && rng.chance(1, 8) {
+                // a value delivered by some other self-describing format
+                let kind = rng.pick(&codec::VALUE_KINDS).to_string();
+                let text = match rng.below(3) {
+                    0 => rng.pick(&foreign_texts(ty)).to_string(),
+                    _ => {
+                        let mut b: Vec<u8> = Vec::new();
+                        let _ = codec::encode(ty, draw_value(&mut rng, ty), Codec::Json, &mut b);
+                        String::from_utf8_lossy(&b).trim_matches('"').to_string()
+                    }
+                };
+                let raw = if rng.bool() { draw_foreign_raw(&mut rng, ty) } else { draw_value(&mut rng, ty) };
+                step!(Op::ForeignValue { ty, kind, raw, text, human: rng.bool() });
+            } else if use_foreign && rng.chance(1, 8) {
+                let raw = if rng.bool() { draw_foreign_raw(&mut rng, ty) } else { draw_value(&mut rng, ty) };
+                let json = match rng.below(12) {
+                    0 | 1 | 2 => format!("{}", raw),
+                    3 | 4 => format!("{:e}", raw as f64),
+                    5 => format!("{}.0", raw),
+                    6 => format!("{}.5", raw),
+                    7 => (*rng.pick(&["null", "true", "false", "[]", "{}", "[1]", "{\"days\":1}", "1e400", "-1e400", "-0.0", "0", "\"\""])).to_string(),
+                    8 => format!("[{}]", raw),
+                    9 => format!("\"{}\"", raw),
+                    _ => {
+                        // a correct text with its first character written as a \u escape
+                        let mut b: Vec<u8> = Vec::new();
+                        let _ = codec::encode(ty, draw_value(&mut rng, ty), Codec::Json, &mut b);
+                        let t = String::from_utf8_lossy(&b).trim_matches('"').to_string();
+                        match t.chars().next() {
+                            Some(c) => format!("\"\\u{:04x}{}\"", c as u32, &t[c.len_utf8()..]),
+                            None => "\"\"".to_string(),
+                        }
+                    }
+                };
+                step!(Op::ForeignJson { ty, json });
+            } else if use_foreign && rng.chance(1, 4) {
                 if rng.bool() {
                     step!(Op::ForeignBin { ty, raw: draw_foreign_raw(&mut rng, ty) });
                 } else {
@@ -868,6 +1105,8 @@ fn script_to_json(s: &Script) -> Value {
             }
             Op::ForeignBin { ty, raw } => json!({"op": "foreign_bin", "type": ty.name(), "raw": raw}),
             Op::ForeignText { ty, text } => json!({"op": "foreign_text", "type": ty.name(), "text": text}),
+            Op::ForeignJson { ty, json } => json!({"op": "foreign_json", "type": ty.name(), "json": json}),
+            Op::ForeignValue { ty, kind, raw, text, human } => json!({"op": "foreign_value", "type": ty.name(), "kind": kind, "raw": raw, "text": text, "human_readable": human}),
             Op::Sync => json!({"op": "sync"}),
             Op::NewDisk => json!({"op": "new_disk"}),
             Op::CrashLose => json!({"op": "crash_lose_unsynced_tail"}),
@@ -896,6 +1135,14 @@ fn script_from_json(v: &Value) -> Result<Script, String> {
             },
             "foreign_bin" => Op::ForeignBin { ty: ty()?, raw: o["raw"].as_i64().ok_or("raw")? },
             "foreign_text" => Op::ForeignText { ty: ty()?, text: o["text"].as_str().ok_or("text")?.to_string() },
+            "foreign_json" => Op::ForeignJson { ty: ty()?, json: o["json"].as_str().ok_or("json")?.to_string() },
+            "foreign_value" => Op::ForeignValue {
+                ty: ty()?,
+                kind: o["kind"].as_str().ok_or("kind")?.to_string(),
+                raw: o["raw"].as_i64().ok_or("raw")?,
+                text: o["text"].as_str().ok_or("text")?.to_string(),
+                human: o["human_readable"].as_bool().unwrap_or(true),
+            },
             "sync" => Op::Sync,
             "new_disk" => Op::NewDisk,
             "crash_lose_unsynced_tail" => Op::CrashLose,
@@ -1134,9 +1381,19 @@ fn main() {
     let mut out = simcore::verif_root().join("evidence").join("C15.json");
     let mut replay_file: Option<String> = None;
     let mut expect_class: Option<String> = None;
+    let mut worker_proc: Option<(String, u64, u64)> = None;
+    let mut passthrough: Vec<String> = Vec::new();
     let mut i = 1;
     while i < args.len() {
+        if matches!(args[i].as_str(), "--tier" | "--runs") && i + 1 < args.len() {
+            passthrough.push(args[i].clone());
+            passthrough.push(args[i + 1].clone());
+        }
         match args[i].as_str() {
+            "--worker-proc" => {
+                worker_proc = Some((args[i + 1].clone(), args[i + 2].parse().unwrap_or(0), args[i + 3].parse().unwrap_or(1)));
+                i += 3;
+            }
             "--tier" => {
                 i += 1;
                 tier = args[i].clone();
@@ -1179,51 +1436,74 @@ fn main() {
     }
     let thorough = tier == "thorough";
     let seed = simcore::seed_from_env();
-    println!("C15 simulation: VERIF_SEED={seed} tier={tier}");
     let t0 = simcore::real_monotonic_s();
     let workers = pool::default_workers();
     let known = simcore::known::load();
 
-    // ---- batch 1: fault-free configuration (round trip must hold for every record) ----
     let n_clean: u64 = runs_override.map(|r| r / 4).unwrap_or(if thorough { 500_000 } else { 50_000 });
-    let mut total: Stats = pool::run_parallel(n_clean, workers, |idx, acc: &mut Stats, cut: &Cutoff| {
-        if let (s, Some(v)) = simulate_run(seed, idx, true, acc) {
-            cut.lower_to(idx);
-            acc.violations.push((idx, s, v));
-        }
-    });
-    let clean_runs = total.runs;
-    // fault-free control over complete sub-spaces (thorough: every date and every second of the day)
     let n_dates = (DATE_MAX_DAYS - DATE_MIN_DAYS + 1) as u64;
     let ctrl_stride: u64 = if thorough { 1 } else { 23 };
-    let ctrl: Stats = pool::run_parallel(n_dates + 86_400, workers, |idx, acc: &mut Stats, cut: &Cutoff| {
-        if idx % ctrl_stride != 0 && idx != n_dates - 1 && idx != n_dates + 86_399 {
-            return;
+    let n_fault: u64 = runs_override.unwrap_or(if thorough { 2_000_000 } else { 200_000 });
+
+    // ---- worker process: one slice of one phase, single-threaded, shares no library state ----
+    if let Some((phase, k, w)) = worker_proc {
+        let mut acc = Stats::default();
+        match phase.as_str() {
+            "clean" | "fault" => {
+                let (n, ff) = if phase == "clean" { (n_clean, true) } else { (n_fault, false) };
+                let mut idx = k;
+                while idx < n {
+                    if let (sc, Some(v)) = simulate_run(seed, idx, ff, &mut acc) {
+                        acc.violations.push((idx, sc, v));
+                        break;
+                    }
+                    idx += w;
+                }
+            }
+            _ => {
+                let mut idx = k;
+                while idx < n_dates + 86_400 {
+                    if idx % ctrl_stride == 0 || idx == n_dates - 1 || idx == n_dates + 86_399 {
+                        acc.runs += 1;
+                        if let Some((sc, v)) = control_sweep(idx, &mut acc) {
+                            acc.violations.push((idx, sc, v));
+                            break;
+                        }
+                    }
+                    idx += w;
+                }
+            }
         }
-        acc.runs += 1;
-        if let Some((s, v)) = control_sweep(idx, acc) {
-            cut.lower_to(idx);
-            acc.violations.push((idx, s, v));
+        println!("RESULT {}", acc.to_json());
+        std::process::exit(EXIT_OK);
+    }
+
+    println!("C15 simulation: VERIF_SEED={seed} tier={tier}");
+    let mut phase_errors: Vec<String> = Vec::new();
+    let mut run_phase = |phase: &str| -> Stats {
+        let mut total = Stats::default();
+        for r in simcore::procpool::run_phase(phase, workers as u64, &passthrough) {
+            match r.result {
+                Ok(v) => total.merge(Stats::from_json(&v)),
+                Err(e) => phase_errors.push(e),
+            }
         }
-    });
+        total
+    };
+
+    // ---- batch 1: fault-free configuration (round trip must hold for every record) ----
+    let mut total: Stats = run_phase("clean");
+    let clean_runs = total.runs;
+    // fault-free control over complete sub-spaces (thorough: every date and every second of the day)
+    let ctrl: Stats = run_phase("control");
     let ctrl_items = ctrl.runs;
     let ctrl_records = ctrl.records;
     total.merge(ctrl);
     let t1 = simcore::real_monotonic_s();
     println!("fault-free: {} runs + control sweep over {} days/seconds ({} records) in {:.1}s", clean_runs, ctrl_items, ctrl_records, t1 - t0);
 
-    // ---- batch 2: fault-injecting configuration ----
-    let n_fault: u64 = runs_override.unwrap_or(if thorough { 2_000_000 } else { 200_000 });
-    let fault: Stats = if total.violations.is_empty() {
-        pool::run_parallel(n_fault, workers, |idx, acc: &mut Stats, cut: &Cutoff| {
-            if let (s, Some(v)) = simulate_run(seed, idx, false, acc) {
-                cut.lower_to(idx);
-                acc.violations.push((idx, s, v));
-            }
-        })
-    } else {
-        Stats::default()
-    };
+    // ---- batch 2: fault-injecting configuration (fresh worker processes) ----
+    let fault: Stats = if total.violations.is_empty() { run_phase("fault") } else { Stats::default() };
     let fault_runs = fault.runs;
     let first_batch_violations = total.violations.clone();
     let from_fault_free_batch = !first_batch_violations.is_empty();
@@ -1233,6 +1513,12 @@ fn main() {
     }
     let t2 = simcore::real_monotonic_s();
     println!("fault-injecting: {} runs, {} records, {} decodes ({} enumerated single-fault decodes) in {:.1}s", fault_runs, total.records, total.decodes, total.enumerated_decodes, t2 - t1);
+    if !phase_errors.is_empty() {
+        for e in &phase_errors {
+            eprintln!("harness error: {e}");
+        }
+        std::process::exit(EXIT_HARNESS);
+    }
 
     // ---- scenario B: threads under Miri ----
     let miri_seeds = miri_seeds_override.unwrap_or(if thorough { 256 } else { 16 });
